@@ -104,8 +104,9 @@ impl Family for C09 {
             },
         };
         let mut elems = elems;
-        if rkind == RdKind::B8 && rbackend.zero_extended() {
-            // see C03: the known finding (u8 reader + tables) is exercised on strict backends only
+        if rkind == RdKind::B8 && (rbackend.zero_extended() || crate::p01::CLEAN_ARGS.load(std::sync::atomic::Ordering::Relaxed)) {
+            // see C03: the known finding (u8 reader + tables) is exercised on strict backends only,
+            // and left out of the configuration replay (C19) altogether
             for el in elems.iter_mut() {
                 if let Elem::Code { code, rtab, .. } = el {
                     let mut t = *rtab % code.n_rtabs();
